@@ -113,6 +113,17 @@ CLAIMED = {
         note="Known findings (recorded, not repaired): rft/irft and rft2/irft2 are not inverse pairs (exact failure signatures in "
              "known_findings.json). 2-D transforms on square arrays only. 'Approximates the continuous transform' = centring + shift "
              "theorem only."),
+    "C07": dict(
+        engine="tlc+replay", design_ref="DESIGN.md §3 C07",
+        technique="TLA+ spec FFTScreen.tla: frequency grid, DC removal, the exponent table of the draw->pixel linear map derived from the screen module's shift/inverse-DFT/shift pipeline (FourierOps, shared with Fourier.tla), sub-harmonic phase tables and mean removal; DCRemoved/Stationary/HermitianPairing/sub-harmonic geometry checked by TLC; real ft_phase_screen / ft_sh_phase_screen probed with every unit draw through a scripted Generator and compared with amplitude x root-of-unity pattern",
+        text="For every even size in scope TLC fixes which draw feeds which pixel with which phase, which coefficient is removed and "
+             "that the covariance is stationary; every one of the 2N^2 + 54 unit draws of the real generators (4 parameter sets, "
+             "including a large inner scale and the same geometry with two r0) must reproduce that pattern times the independently "
+             "evaluated spectrum amplitude to 1e-11, composite draws must superpose, r0 scaling must be exactly r0^(-5/6) for fixed "
+             "seeds across interleaved calls, the sub-harmonic part must be mean-free and add to the high-frequency part on disjoint "
+             "draws; the same-seed coupling of the two generators is evaluated exactly on the model's maps.",
+        note="The spectrum value is an atom in the model (trusted: NumPy exp/sqrt in the harness). The two convergence clauses are "
+             "asymptotic numerics and not decided."),
 }
 
 NOT_APPLICABLE = {
